@@ -168,6 +168,33 @@ def run(ctx):
         if not thorough and rng.random() < 0.5:
             continue
         check_valid(ctx, rng, "pairs", [a, b], {**ca, **cb}, rand_dev_state(rng))
+    # ordered pairs (and a few longer lines) of ENUMERATED settings in mixed forms — a value given as a number next to one
+    # given by name, in both orders: each setting is parsed on its own, nothing carries over from one to the next
+    enum_names = list(ENUMS)
+    def pick(name):
+        key, enum = ENUMS[name]
+        member = rng.choice([m for m in enum if m.name != "DEFAULT"])
+        return key, member
+    for n1, n2 in itertools.permutations(enum_names, 2):
+        for f1 in ("num", "name"):
+            for f2 in ("num", "name"):
+                if not thorough and f1 == f2 and rng.random() < 0.5:
+                    continue
+                (k1, m1), (k2, m2) = pick(n1), pick(n2)
+                a = f"{n1}={int(m1) if f1 == 'num' else casing(rng, m1.name)}"
+                b = f"{n2}={int(m2) if f2 == 'num' else casing(rng, m2.name)}"
+                check_valid(ctx, rng, "enum_pairs", [a, b], {k1: int(m1), k2: int(m2)}, rand_dev_state(rng))
+    for _ in range(10 if not thorough else 200):
+        names = rng.sample(enum_names, min(len(enum_names), rng.randrange(2, 5)))
+        line, changes = [], {}
+        for nm in names:
+            k, m = pick(nm)
+            line.append(f"{nm}={int(m) if rng.random() < 0.5 else casing(rng, m.name)}")
+            changes[k] = int(m)
+        if "fan_speed" not in names and rng.random() < 0.5:
+            line.insert(rng.randrange(len(line) + 1), "fan_speed=%d" % 37)
+            changes["fan"] = 37
+        check_valid(ctx, rng, "enum_lines", line, changes, rand_dev_state(rng))
     # invalid names and values: rejected with non-zero exit before anything is sent
     invalid = ["nonsense=1", "online=True", "supported_operation_modes=1", "indoor_temperature=20", "min_target_temperature=16",
                "operational_mode=warp", "operational_mode=9", "swing_mode=7", "swing_mode=diagonal", "aux_mode=5",
